@@ -608,6 +608,7 @@ func main() {
 	writeFile("AirGlue.lean", genAirGlue(facts))
 	writeFile("RoundLock.lean", genRoundLock(facts))
 	writeFile("MoreFacts.lean", genMoreFacts(facts))
+	writeFile("SeedFacts.lean", genSeedFacts(facts))
 	genFacts(facts)
 	facts["machines"] = ms
 	bz, _ := json.MarshalIndent(facts, "", " ")
